@@ -22,10 +22,13 @@ TEXT = {
             "offset / count bookkeeping theorems for ARBITRARY element encodings and the spec length bounds. Mutated "
             "backings and the Python glue (encode_bytes, serialize(stream), bytes()): correspondence.",
             "Coq proof (full serialize theorem, all types) + correspondence", "5 (C02)"),
-    "C03": ("Theorems: uintN / boolean decode(encode(v)) from a stream with an arbitrary suffix returns the constructed "
-            "backing and the untouched suffix. Other kinds: correspondence (prefix / suffix around the encoding, exact "
-            "scope; success, root, re-encoding, ==, bytes consumed).",
-            "Coq proof (leaf kinds) + correspondence", "5 (C03)"),
+    "C03": ("Theorem C03_roundtrip (full statement): for EVERY type and every well-formed value whose encoding is shorter "
+            "than 2^32 bytes, decoding the spec encoding from a stream followed by an arbitrary suffix with the exact "
+            "scope (or from bytes) succeeds, returns EXACTLY the backing tree the constructor builds (same content, root, "
+            "equality) and leaves the suffix untouched, for any hash function; C03_decode_encode: re-encoding the decoded "
+            "value gives the bytes back. Stream prefix, Python stream object, ==: correspondence (prefix / suffix around "
+            "the encoding, exact scope; success, root, re-encoding, ==, bytes consumed).",
+            "Coq proof (full round-trip theorem, all types) + correspondence", "5 (C03)"),
     "C04": ("Theorems: on ANY contents tree representing a node list (CRep: any mixture of zero summaries / expanded "
             "zeros) a write at position i represents the updated list, an expanding write at |ns| represents ns++[v], and "
             "the root is always the merkleisation of the represented list (no stale root). View level: for lists of "
